@@ -270,6 +270,8 @@ def _c1_or_codec_mismatch(text, enc, want_name):
 
 
 def shrink_extra(case, fails):
+    if "doc" not in case:
+        return case
     def f(doc):
         c = dict(case)
         c["doc"] = doc
